@@ -1,6 +1,8 @@
 import XmppModel.Prelude.Hex
 import XmppModel.Model.Close
 import XmppModel.Model.CloseEnv
+import XmppModel.Model.CloseFraming
+import XmppModel.Model.CloseServe
 /-! Driver for C10 (see harness/c10 for the line protocol).
 
     hist <serve 0|1> <op,op,…>        -> <res,res,…> <wire items> <outClosed><inClosed> <serve result>
@@ -11,6 +13,10 @@ import XmppModel.Model.CloseEnv
     sched <kind,kind,…> <i,i,…>       -> <wire events> <per goroutine outcome>
     tee <k|-> <op,…>                      -> <res,…> <connection writes> <outClosed> <closing-tag writes>   (TeeOut fails from op k on)
     wdl <op,…>                            -> <res,…> <wire items> <outClosed> wd=<z|p> setters=clean        (tNa/tNx/tNk: context fate)
+    fr <tcp|ws> <init|recv> <op,…>        -> <res,…> <el|ctcp|cws,…> <outClosed><inClosed> <serve result>     (p/q: peer sends </stream:stream> / <close/>)
+    srv <act,…>                           -> <ok|closedout|blocked,…> <wire> <outClosed><inClosed> <notstarted|running|nil|err|deadline>
+                                          (Serve as a thread: v start; ai/ri, ao/aw/ro application holds a reader / writer;
+                                           c Close; ds/dy/dc/db peer input; x deadline passes; Serve runs until it blocks after each)
     held <pre|handler> <dp|dz|d>          -> serve=deadline held=ok fresh=closedin bits=11                  (reader held across Serve's end)
 
 ops: c close; t1…t6 the transmit entry points; r read; m/y peer stanza (handler silent /
@@ -106,14 +112,86 @@ def parseWdOp (s : String) : Option WdHist.Op :=
 def showWdRes : WdHist.Res → String
   | .ok => "ok" | .closedOut => "closedout" | .failed => "failed"
 
+def parseFrOp (s : String) : Option Framing.Op :=
+  match s with
+  | "p" => some (.peerEnds .tcp)
+  | "q" => some (.peerEnds .ws)
+  | "h" => some (.base .handlerErr)
+  | o => (parseOp o).map .base
+
+def showTag : Framing.Tag → String
+  | .el => "el" | .close .tcp => "ctcp" | .close .ws => "cws"
+
+/-- harness action -> model actions (`c` = `Close()` by an application goroutine) -/
+def parseSrvAct (s : String) : Option (List SrvLts.Act) :=
+  match s with
+  | "v" => some [.start]
+  | "ai" => some [.appAcquireIn]
+  | "ri" => some [.appReleaseIn]
+  | "ao" => some [.appAcquireOut]
+  | "aw" => some [.appWrite]
+  | "ro" => some [.appReleaseOut]
+  | "c" => some [.appAcquireOut, .appCloseSession, .appReleaseOut]
+  | "ds" => some [.deliver (.stanza false)]
+  | "dy" => some [.deliver (.stanza true)]
+  | "dc" => some [.deliver .close]
+  | "db" => some [.deliver .bad]
+  | "x" => some [.expire]
+  | _ => none
+
+def showSrvRet : SrvLts.Ret → String
+  | .nil_ => "nil" | .err => "err" | .deadline => "deadline"
+
+def showSrvItem : SrvLts.Item → String
+  | .el => "el" | .close => "close"
+
+/-- every action is followed by `Serve` running until it blocks; a disabled action is reported as
+`blocked` and ends the scenario -/
+def srvRun : SrvLts.St → List (List SrvLts.Act) → List String → SrvLts.St × List String
+  | s, [], acc => (s, acc.reverse)
+  | s, as :: rest, acc =>
+    let r := as.foldl (fun (st : Option SrvLts.St) a => st.bind fun x => SrvLts.step false x a) (some s)
+    match r with
+    | none => (s, ("blocked" :: acc).reverse)
+    | some s' =>
+      let res := if as == [SrvLts.Act.appWrite] && s.outClosed then "closedout" else "ok"
+      -- the harness feeds a keep-alive whenever Serve has settled inside its read
+      let s2 := SrvLts.serveRun 16 s'
+      let s3 := match SrvLts.step false s2 .keepalive with | some x => x | none => s2
+      -- whether `closeInputStream` waits for a reader held by the application is the
+      -- implementation's choice: the harness gives the reader back before it observes anything
+      let waitsForReader : Bool := match s3.spc with | .shutIn _ => s3.inLock == .app | _ => false
+      let s4 := if waitsForReader then
+          (match SrvLts.step false s3 .appReleaseIn with | some x => SrvLts.serveRun 16 x | none => s3)
+        else s3
+      srvRun s4 rest (res :: acc)
+
+def teeLine (k ops : String) : Option String := do
+  let f ← if k == "-" then some none else k.toNat?.map some
+  let l ← mapM? parseTeeOp (splitList ops)
+  let fails : Nat → Bool := fun i => match f with | none => false | some n => decide (n ≤ i)
+  let r := Tee.run false fails 0 Tee.init l
+  pure s!"{joinList (r.2.map showTeeRes)} {joinList (r.1.wire.map showTeeItem)} {showBool r.1.outClosed} {r.1.attempts}"
+
 def handle (args : List String) : Option String :=
   match args with
-  | ["tee", k, ops] => do
-    let f ← if k == "-" then some none else k.toNat?.map some
-    let l ← mapM? parseTeeOp (splitList ops)
-    let fails : Nat → Bool := fun i => match f with | none => false | some n => decide (n ≤ i)
-    let r := Tee.run false fails 0 Tee.init l
-    pure s!"{joinList (r.2.map showTeeRes)} {joinList (r.1.wire.map showTeeItem)} {showBool r.1.outClosed} {r.1.attempts}"
+  | ["srv", acts] => do
+    let l ← mapM? parseSrvAct (splitList acts)
+    let r := srvRun SrvLts.init l []
+    let s := r.1
+    let serve := match s.spc with
+      | .notStarted => "notstarted"
+      | .returned x => showSrvRet x
+      | _ => "running"
+    pure s!"{joinList r.2} {joinList (s.wire.map showSrvItem)} {showBool s.outClosed}{showBool s.inClosed} {serve}"
+  | ["fr", fr, _role, ops] => do
+    let f ← match fr with | "tcp" => some Framing.Fr.tcp | "ws" => some Framing.Fr.ws | _ => none
+    let l ← mapM? parseFrOp (splitList ops)
+    let r := Framing.run true f (Hist.init true) l
+    let s := r.1
+    pure s!"{joinList (r.2.map showRes)} {joinList ((Framing.wire true f s).map showTag)} {showBool s.outClosed}{showBool s.inClosed} {showRet s.serve}"
+  | ["tee", k, ops] => teeLine k ops
+  | ["teer", k, ops] => teeLine k ops   -- the tee'd session in the receiving role: same model
   | ["wdl", ops] => do
     let l ← mapM? parseWdOp (splitList ops)
     let r := WdHist.run true WdHist.init l
